@@ -57,7 +57,8 @@ HasXattrs(d) == \E x \in XNames : d.xa[x].t # "-"
 SysOnly(xa) == [x \in XNames |-> IF x \in SysNames THEN xa[x] ELSE NoX]
 
 MkX(arg, n, b) == [t |-> arg.t, cas |-> IF arg.mc THEN n ELSE 0,
-                   crc |-> IF arg.mh THEN b ELSE NoMacro]
+                   \* (the checksum of a body of length zero is that of no body: the two are one token here)
+                   crc |-> IF arg.mh THEN (IF b = RawBody(<<>>) THEN NoBody ELSE b) ELSE NoMacro]
 ApplySets(xa, sets, n, b) ==
     [x \in XNames |-> IF sets[x].t # "-" THEN MkX(sets[x], n, b) ELSE xa[x]]
 ApplyDels(xa, dels) == [x \in XNames |-> IF dels[x] THEN NoX ELSE xa[x]]
